@@ -62,8 +62,9 @@ def gen_graph(rng, n_ns=2, n_nodes=6, hostile=True, with_values=True, dangling=T
                 if a == "DataType": attrs[a] = rng.choice(datatypes)
                 elif a in ("ParentNodeId", "MethodDeclarationId"): attrs[a] = rng.choice(keys) if keys else (UA, "i", "85")
                 elif a in ("IsAbstract", "Symmetric", "Historizing"): attrs[a] = rng.choice(["true", "false"])
-                elif a == "ValueRank": attrs[a] = str(rng.choice([-3, -2, -1, 0, 1, 2]))
-                elif a in ("AccessLevel", "UserAccessLevel", "EventNotifier"): attrs[a] = str(rng.choice([0, 1, 3, 5, 127, 128, 255]))
+                elif a == "ValueRank": attrs[a] = str(rng.choice([-3, -2, -1, 0, 1, 2, 3, 127, 128, 1000]))
+                elif a == "EventNotifier": attrs[a] = str(rng.choice([0, 1, 4, 5, 127, 128, 255]))
+                elif a in ("AccessLevel", "UserAccessLevel"): attrs[a] = str(rng.choice([0, 1, 3, 5, 127, 128, 255, 256, 65535, 4294967295]))
                 elif a == "MinimumSamplingInterval": attrs[a] = str(rng.choice([-1, 0, 100, 1000]))
                 elif a == "ArrayDimensions": attrs[a] = rng.choice(["1", "2,3", "0"])
                 elif a == "SymbolicName": attrs[a] = rng.choice(["Sym_1", "Name", "a b" if hostile else "Sym"])
